@@ -62,59 +62,95 @@ NEED_PROTO = (
        "real_payload_R1", "real_payload_R2", "real_payload_R3", "real_payload_GS", "real_payload_ES"])
 
 
-def const(src, name):
-    m = re.search(r"\b%s\s*=\s*([^\n/]+)" % re.escape(name), src)
-    return m.group(1).strip() if m else None
+def const_exprs(*srcs):
+    """All `name = <expr>` declarations of const/var blocks of the given Go sources."""
+    env = {}
+    for src in srcs:
+        src = re.sub(r"([+\-*/])[ \t]*\n\s*", r"\1 ", src)      # expressions continued on the next line
+        for m in re.finditer(r"^\s*(?:const\s+|var\s+)?(\w+)\s*(?:\w+\s*)?=\s*([^\n]+)$", src, flags=re.M):
+            env.setdefault(m.group(1), m.group(2).strip())
+    return env
 
 
-def source_facts(ctx):
-    """Constants and check sites the model hard-codes, read off the source."""
+def resolve(name, env, depth=0):
+    """Value of a named Go constant: identifiers are resolved through `env`,
+    len("..") of string literals and integer arithmetic are evaluated.  None when
+    the expression is not of that shape."""
+    if depth > 12 or name not in env:
+        return None
+    expr = env[name]
+    sm = re.fullmatch(r'"([^"\\]*)"', expr)
+    if sm:
+        return sm.group(1)
+
+    def ident(m):
+        v = resolve(m.group(0), env, depth + 1)
+        return repr(v) if v is not None else "None"
+    e = re.sub(r"len\(\s*(\w+)\s*\)", lambda m: str(len(resolve(m.group(1), env, depth + 1) or "")), expr)
+    e = re.sub(r"\b[A-Za-z_]\w*\b", ident, e)
+    if not re.fullmatch(r"[\d\s+\-*/()]+", e):
+        return None
+    try:
+        return int(eval(e.replace("/", "//"), {"__builtins__": {}}))
+    except Exception:
+        return None
+
+
+def source_facts(ctx, probes):
+    """What the model hard-codes about the code's shape.  Every item here is
+    DECIDED behaviourally on every run (the byte-exact codec correspondence, the
+    `circ` op, the size/restart/mismatch oracles and the repair probes of the
+    proto mode); the source-text reading is therefore advisory: a drift widens
+    the search, it never raises an alarm by itself.  Constants are resolved to
+    values, call orders come from the go/ast extractor (helpers inlined)."""
     params = vlib.strip_go_comments(vlib.repo_file("sha2pc/params.go"))
     enc = vlib.strip_go_comments(vlib.repo_file("sha2pc/encoding.go"))
-    got = {k: const(params, k) for k in ("sessionIDBytes", "hashInputBitCount", "labelByteLen", "garblingKeyBytes",
-                                          "garbledTableLabelCount", "outputHintCount")}
-    ctx.fact("sha2pc/params.go constants", got,
-             {"sessionIDBytes": "8", "hashInputBitCount": "32 * 8", "labelByteLen": "16", "garblingKeyBytes": "32",
-              "garbledTableLabelCount": "42914", "outputHintCount": "256"})
-    magics = dict(re.findall(r"(magic\w+)\s*=\s*\"(\w+)\"", enc))
-    ctx.fact("sha2pc/encoding.go magics", magics,
-             {"magicRound1": "R1", "magicRound2": "R2", "magicRound3": "R3", "magicGarblerSession": "GS",
-              "magicEvalSession": "ES"})
-    ctx.fact("chunkSizeLimit", const(enc, "chunkSizeLimit"), "1 * 1024 * 1024")
-    counts = re.search(r"func gateCiphertextCount.*?^}", params, flags=re.S | re.M)
-    body = counts.group(0) if counts else ""
-    ctx.fact("gateCiphertextCount table (XOR/XNOR 0, AND 2, OR 3, INV 1)",
-             [list(t) for t in re.findall(r"case ([\w., ]+):\s*return (\d)", body)],
-             [["circuit.XOR, circuit.XNOR", "0"], ["circuit.AND", "2"], ["circuit.OR", "3"], ["circuit.INV", "1"]])
-    g3 = vlib.strip_go_comments(vlib.go_func_body("sha2pc/garbler.go", r"GarblerRound3\(") or "")
-    e4 = vlib.strip_go_comments(vlib.go_func_body("sha2pc/evaluator.go", r"EvaluatorRound4\(") or "")
-    ctx.fact("GarblerRound3 compares req.SessionID with state.SessionID",
-             bool(re.search(r"req\.SessionID\s*!=\s*state\.SessionID", g3)), True)
-    ctx.fact("EvaluatorRound4 compares msg.SessionID with state.SessionID",
-             bool(re.search(r"msg\.SessionID\s*!=\s*state\.SessionID", e4)), True)
-    ctx.fact("GarblerRound3 sends both labels of every output wire (OutputHints = garbled.Wires[start:]; C04's finding)",
-             bool(re.search(r"copy\(outputHints,\s*garbled\.Wires\[start:\]\)", g3)), True)
-    # the repairs the model now assumes (commits 0e7671a, 68f93f2, d9a1171, 2eb87d5, 217fb4c)
-    encsrc = "sha2pc/encoding.go"
-    for fn in ("DecodeRound1", "DecodeGarblerSession", "DecodeEvaluatorSession", "decodeCOSenderSetup",
-               "decodeChoiceBundle"):
-        body = vlib.strip_go_comments(vlib.go_func_body(encsrc, fn + r"\(") or "")
-        ctx.fact("%s rejects input left in the reader (reader.Len() != 0 -> error)" % fn,
-                 bool(re.search(r"if\s+reader\.Len\(\)\s*!=\s*0\s*{\s*return[^\n]*Errorf", body)), True)
-    cb = vlib.strip_go_comments(vlib.go_func_body(encsrc, r"decodeChoiceBundle\(") or "")
-    ctx.fact("decodeChoiceBundle reads the bit field with io.ReadFull",
-             bool(re.search(r"io\.ReadFull\(\s*reader\s*,\s*raw\s*\)", cb)) and not re.search(r"reader\.Read\(raw\)", cb), True)
-    rc = vlib.strip_go_comments(vlib.go_func_body(encsrc, r"readChunk\(") or "")
-    ctx.fact("readChunk compares the consumed prefix length with PutUvarint of the value",
-             bool(re.search(r"before\s*-\s*r\.Len\(\)\s*!=\s*binary\.PutUvarint\(", rc)), True)
-    dco = vlib.strip_go_comments(vlib.go_func_body("ot/co_helpers.go", r"DecryptCOCiphertexts\(") or "")
-    eco = vlib.strip_go_comments(vlib.go_func_body("ot/co_helpers.go", r"EncryptCOCiphertexts\(") or "")
-    ctx.fact("DecryptCOCiphertexts checks ensureOnCurve(bundle.Ax, bundle.Ay) before the first ScalarMult",
-             bool(re.search(r"ensureOnCurve\(curve,\s*bundle\.Ax,\s*bundle\.Ay\)", dco)) and
-             dco.find("ensureOnCurve(") < (dco.find("ScalarMult(") if "ScalarMult(" in dco else 1 << 30), True)
-    ctx.fact("EncryptCOCiphertexts checks ensureOnCurve(setup.AaInvX, setup.AaInvY) before the first Add",
-             bool(re.search(r"ensureOnCurve\(curve,\s*setup\.AaInvX,\s*setup\.AaInvY\)", eco)) and
-             eco.find("setup.AaInvX, setup.AaInvY)") < (eco.find("curve.Add(") if "curve.Add(" in eco else 1 << 30), True)
+    env = const_exprs(params, enc)
+    got = {k: resolve(k, env) for k in ("sessionIDBytes", "hashInputBitCount", "labelByteLen", "garblingKeyBytes",
+                                         "garbledTableLabelCount", "outputHintCount", "evaluatorChoiceSignBytes",
+                                         "round3PayloadLen", "chunkSizeLimit")}
+    ctx.advise("sha2pc constants, resolved to values (decided by the codec correspondence, the `circ` op and the size oracle)",
+               got, {"sessionIDBytes": 8, "hashInputBitCount": 256, "labelByteLen": 16, "garblingKeyBytes": 32,
+                     "garbledTableLabelCount": 42914, "outputHintCount": 256, "evaluatorChoiceSignBytes": 32,
+                     "round3PayloadLen": 707146, "chunkSizeLimit": 1048576})
+    magics = sorted(v for k, v in ((k, resolve(k, env)) for k in env if k.lower().startswith("magic")) if isinstance(v, str))
+    ctx.advise("the five two-byte magics (decided by the codec correspondence on real payloads and magic mutations)",
+               magics, ["ES", "GS", "R1", "R2", "R3"])
+    # call order of the curve operations: every ScalarMult / Add on a stored or received point comes after
+    # ensureOnCurve (same-package helpers inlined, receivers by declared type); WHICH point is checked is
+    # decided by the probes `offcurve-ES-A` / `offcurve-GS-AaInv` and the continuation runs
+    pt = ["ScalarMult", "Add", "ScalarBaseMult"]
+    ctx.advise("ot.DecryptCOCiphertexts: ensureOnCurve precedes the first ScalarMult",
+               ctx.callseq("ot", "DecryptCOCiphertexts", methods=pt, funcs=["ensureOnCurve"]),
+               ["func.ensureOnCurve", "elliptic.Curve.ScalarMult"])
+    ctx.advise("ot.EncryptCOCiphertexts: three ensureOnCurve (A, AaInv, choice point) precede ScalarMult and Add",
+               ctx.callseq("ot", "EncryptCOCiphertexts", methods=pt, funcs=["ensureOnCurve"]),
+               ["func.ensureOnCurve", "func.ensureOnCurve", "func.ensureOnCurve", "elliptic.Curve.ScalarMult",
+                "elliptic.Curve.Add"])
+    ctx.advise("ot.BuildCOChoices: ensureOnCurve precedes ScalarBaseMult / Add",
+               ctx.callseq("ot", "BuildCOChoices", methods=pt, funcs=["ensureOnCurve"]),
+               ["func.ensureOnCurve", "elliptic.Curve.ScalarBaseMult", "elliptic.Curve.Add"])
+    # the session-id comparisons (decided by the foreign-session oracle and the wrong-sid continuation runs)
+    for rel, fn in (("sha2pc/garbler.go", "GarblerRound3"), ("sha2pc/evaluator.go", "EvaluatorRound4")):
+        body = vlib.strip_go_comments(vlib.go_func_body(rel, fn + r"\(") or "")
+        ctx.advise("%s compares the message's SessionID with the state's" % fn,
+                   bool(re.search(r"\w+\.SessionID\s*!=\s*\w+\.SessionID", body)), True)
+    # BEHAVIOURAL facts (obligations): the repairs 0e7671a, 68f93f2, d9a1171, 2eb87d5, 217fb4c as the real code
+    # shows them on deterministic probe inputs of every curve, and the shape of the round-3 output hints
+    want = ["trailing-R1", "trailing-GS", "trailing-ES", "inner-trailing-GS", "inner-trailing-ES", "short-bits-ES",
+            "nonminimal-uvarint-R1", "nonminimal-uvarint-R2", "nonminimal-uvarint-GS", "nonminimal-uvarint-ES",
+            "offcurve-ES-A", "offcurve-GS-AaInv"]
+    if probes is not None:
+        ncurves = len(CURVES)
+        bad = {k: v for k, v in probes.items() if k.startswith("probe_") and not k.endswith("_err")}
+        miss = [w for w in want if probes.get("probe_%s_err" % w, 0) < ncurves]
+        ctx.oblige("the real decoders/rounds answer every repair probe with an error on all four curves "
+                   "(trailing bytes, bytes after the last field of the inner chunk, short bit field, padded length "
+                   "prefix, off-curve stored A / AaInv)", not bad and not miss, "other outcomes: %s; missing: %s" % (bad, miss))
+        ctx.oblige("the decoded round-3 message of a real session carries, for every output wire, two distinct labels "
+                   "with one common XOR offset (the model's Round3.hints; property C04 decides what that leaks)",
+                   probes.get("hints_both_labels_common_offset", 0) >= ncurves and not probes.get("hints_not_both_labels"),
+                   str({k: v for k, v in probes.items() if k.startswith("hints_")}))
 
 
 def need(ctx, what, names):
@@ -135,7 +171,6 @@ def run(ctx):
     if ctx.tier == "thorough":
         ctx.leanchecker("MpcVerif.Props.C18")
     ctx.build_drv()
-    source_facts(ctx)
     quick = ctx.tier == "quick"
     repo = ["-repo", vlib.REPO]
     if ctx.build_hx():
@@ -174,20 +209,23 @@ def run(ctx):
             distinct(ctx, ops)
             if job[0] == "circuit":
                 ctx.coverage["embedded_circuit"] = meta.get("circuit")
+        source_facts(ctx, ctx.coverage.get("counters", {}))
         need(ctx, "codec", NEED_CODEC)
         c = ctx.coverage.get("counters", {})
         seen = [n for n in FORBID_CODEC if c.get(n)] + [n for n in c if n.startswith("accepted_noncanonical_")]
         ctx.oblige("no accepted non-canonical input, no padded/extended/short message accepted, no round crash",
                    not seen, "occurred: %s" % seen)
         need(ctx, "proto", NEED_PROTO)
-        if ctx.broken and not [f for f in ctx.fails if not ctx.is_known(f)]:
+        if ctx.widen:
             # widened search for a concrete failing input
             for s in range(ctx.seed + 7000, ctx.seed + 7003):
                 for mode, n in (("codec", 250), ("proto", 3)):
                     ops, out, meta = ctx.run_hx(mode, n, seed=s, tag="-widen", extra_args=repo, timeout=2400)
                     ctx.absorb_meta(meta, prefix="widen_")
-                if [f for f in ctx.fails if not ctx.is_known(f)]:
+                if ctx.fails:
                     break
+    else:
+        source_facts(ctx, None)
     ctx.coverage["rule"] = (
         "codec: per curve the five real payloads of a session + payloads with boundary field values; per payload a "
         "systematic list (truncation at and around every field boundary, extension, one bit in the first/last byte of "
